@@ -53,7 +53,7 @@ def E_CODECS(**kw):
     d = dict(mode="E", schemas=[dict(name="codecs", run="go,go-http")], load_pkgs=["./gen/codecs"], pkgpath="verifmod/gen/codecs",
              test_pkg="./gen/codecs", test_pkgname="codecs", init=[MOD + "/http", "verifmod/gen/codecs"],
              overlay={"gen/codecs/zz_verif_c04.go": "harness/c04/c04_codecs.go", "gen/codecs/zz_verif_c04t.go": "harness/c04/c04_time.go", "gen/codecs/zz_verif_c05.go": "harness/c05/c05_nested.go", "gen/codecs/zz_verif_c05u.go": "harness/c05/c05_unwrap.go", "gen/codecs/zz_verif_c05e.go": "harness/c05/c05_enum.go",
-                      "gen/codecs/zz_verif_c11.go": "harness/c11/c11_decoders.go"})
+                      "gen/codecs/zz_verif_c11.go": "harness/c11/c11_decoders.go", "gen/codecs/zz_verif_c11b.go": "harness/c11/c11_bytes.go"})
     d.update(kw)
     return d
 
@@ -318,7 +318,8 @@ PROPERTIES = {
         groups=[
             E_CODECS(
         harnesses=[dict(func="VerifC11FlattenChildDecoder", reach=["C11/flatten-child/accepted", "C11/flatten-child/rejected"], quick=dict(budget=200), thorough=dict(budget=600)),
-                   dict(func="VerifC11Int64Decoder", reach=["C11/int64/accepted", "C11/int64/rejected"], quick=dict(budget=200), thorough=dict(budget=600)),
+                   dict(func="VerifC11BytesDecoder", reach=["C11/bytes/accepted", "C11/bytes/rejected", "C11/bytes/invalid-text"], quick=dict(budget=60), thorough=dict(budget=200)),
+                   dict(func="VerifC11Int64Decoder", reach=["C11/int64/accepted", "C11/int64/rejected", "C11/int64/null-list-element"], quick=dict(budget=200), thorough=dict(budget=600)),
                    dict(func="VerifC11TopLevel", reach=["C11/top-level/decided"], quick=dict(budget=200), thorough=dict(budget=600)),
                    dict(func="VerifC11OneofDecoder", reach=["C11/oneof/decided"], quick=dict(budget=200), thorough=dict(budget=600)),
                    dict(func="VerifC11TimeDecoder", reach=["C11/time/accepted", "C11/time/rejected"], quick=dict(budget=200), thorough=dict(budget=600)),
